@@ -322,6 +322,24 @@ def env_tables() -> List[str]:
     reset = find_method(cls, "reset")
     rebuilt = [ast.unparse(s) for s in reset.body if isinstance(s, (ast.Assign, ast.AnnAssign)) and ast.unparse(s.targets[0] if isinstance(s, ast.Assign) else s.target) == "self.game"]
     out.append(f"def envResetRebuildsGame : List String := {lean_list([q(x) for x in rebuilt])}")
+    # the flatten guard of ProxyAgent (F-C02-2 repaired): checked when the agent is built
+    itree = parse("game/agent/interface.py")
+    post = find_method(class_def(itree, "ProxyAgent"), "model_post_init")
+    guard = [ast.unparse(s.test) for s in post.body if isinstance(s, ast.If)]
+    raises = [type(s.body[0]).__name__ + ":" + (ast.unparse(s.body[0].exc.func) if isinstance(s.body[0], ast.Raise) and isinstance(s.body[0].exc, ast.Call) else "?")
+              for s in post.body if isinstance(s, ast.If)]
+    calls_super_first = bool(post.body) and any("super().model_post_init" in ast.unparse(s) for s in post.body[:2])
+    out.append(f"def proxyAgentFlattenGuard : List String := {lean_list([q(g) for g in guard])}")
+    out.append(f"def proxyAgentFlattenGuardRaises : List String := {lean_list([q(g) for g in raises])}")
+    out.append(f"def proxyAgentGuardAfterManagersBuilt : Bool := {'true' if calls_super_first else 'false'}")
+    from harness.extract.util import find_function
+    hed = find_function(itree, "_has_empty_dict")
+    lines = []
+    for st in hed.body:
+        if isinstance(st, ast.Expr) and isinstance(st.value, ast.Constant):
+            continue
+        lines += [l.strip() for l in ast.unparse(st).splitlines()]
+    out.append(f"def hasEmptyDictBody : List String := {lean_list([q(l) for l in lines])}")
     return out
 
 
@@ -377,6 +395,33 @@ def folder_visible_tables() -> List[str]:
     return out
 
 
+# ------------------------------------------------------------------------------------------------- the documentation's band tables
+def doc_tables() -> List[str]:
+    """The category tables of the demonstration notebook (markdown, read as JSON text): the rows `|value|meaning|` under the named
+    `<summary>` headings.  C09's specification bands (`specBand`, `specUtil`) are written from these tables."""
+    import json
+    import re
+    from harness.lib.core import SRC
+    nb = json.loads((SRC / "notebooks" / "UC7-E2E-Demo.ipynb").read_text())
+    text = "\n".join("".join(c["source"]) for c in nb["cells"] if c["cell_type"] == "markdown")
+    out = []
+    for lean, heading in (("docExecutionsTable", "Application number of executions category table"), ("docAccessTable", "File number of access category table"),
+                          ("docLinkTable", "Link Values Mapping"), ("docNicTrafficTable", "NIC monitored traffic utilisation category table")):
+        i = text.find(heading)
+        if i < 0:
+            raise ValueError(f"documentation table {heading!r} not found")
+        block = text[i:text.index("</details>", i)]
+        rows = []
+        for line in block.splitlines():
+            m = re.match(r"^\|\s*([^|]+?)\s*\|\s*([^|]+?)\s*\|\s*$", line)
+            if m and not set(m.group(1)) <= set("-: ") and not m.group(1)[0].isalpha():
+                rows.append((m.group(1), m.group(2)))
+        if not rows:
+            raise ValueError(f"documentation table {heading!r} has no rows")
+        out.append(f"def {lean} : List (String × String) := " + lean_list([f"({q(a)}, {q(b)})" for a, b in rows]))
+    return out
+
+
 # ------------------------------------------------------------------------------------------------- emit
 def emit() -> str:
     trees: Dict[str, ast.Module] = {}
@@ -408,5 +453,7 @@ def emit() -> str:
     out += env_tables()
     out.append("")
     out += folder_visible_tables()
+    out.append("")
+    out += doc_tables()
     out.append("end Primaite.Gen.ObsCfgTables\n")
     return "\n".join(out)
